@@ -349,8 +349,15 @@ extern "C" fn on_fatal(sig: i32) {
     }
 }
 
+static CRUMB_PATH: std::sync::Mutex<Option<String>> = std::sync::Mutex::new(None);
+
 /// Install handlers; breadcrumbs go to `path` (created/truncated) or stderr.
 pub fn install_crash_handler(path: Option<&str>) {
+    if cfg!(miri) {
+        // no signals under the interpreter: `crumb` rewrites the file before every transition
+        *CRUMB_PATH.lock().unwrap() = path.map(|s| s.to_string());
+        return;
+    }
     unsafe {
         if let Some(p) = path {
             let mut c = p.as_bytes().to_vec();
@@ -377,6 +384,14 @@ pub fn install_crash_handler(path: Option<&str>) {
 /// crumb is kept: engines that want crash attribution set crumbs from each worker; the last
 /// writer wins, which is still one of the transitions in flight.
 pub fn crumb(s: &str) {
+    if cfg!(miri) {
+        if let Ok(g) = CRUMB_PATH.lock() {
+            if let Some(p) = g.as_ref() {
+                let _ = std::fs::write(p, s);
+            }
+        }
+        return;
+    }
     if let Ok(_g) = CRUMB_LOCK.try_lock() {
         unsafe {
             let n = s.len().min(CRUMB_LEN);
@@ -538,7 +553,10 @@ pub fn build_name() -> &'static str {
 pub struct Args(pub Vec<String>);
 impl Args {
     pub fn from_env() -> Self {
-        Args(std::env::args().skip(1).collect())
+        let a = Args(std::env::args().skip(1).collect());
+        // `--stale`: build every state with stale copies of destroyed elements in its dead slots
+        crate::mapsys::set_stale(a.flag("stale"));
+        a
     }
     pub fn get(&self, key: &str) -> Option<&str> {
         let k = format!("--{key}");
